@@ -134,6 +134,26 @@ def unit_hostile_data():
             res.append(sweep("C10/hostile/containers truncated and bit-flipped: API raises only DataError, command line never answers 4", ccases(), ccheck, "bounded",
                              "delimited / fixed / ods / xlsx data files truncated and with one byte flipped at ~40 offsets each (200 in thorough), garbage bytes, undecodable bytes; through validio.rows and applications.main",
                              describe=lambda c: {"format": c[0], "fault": c[1], "offset": c[2]}, function="validio.rows / applications.main", unit="C10.hostile.data", props=["C10", "C06"]))
+            # the Encoding cell of a CID against a data file read by path: names that Python knows as codecs but that are no text encodings,
+            # unknown names, and encodings the data is not written in
+            def ecases():
+                for fmt in ("delimited", "fixed"):
+                    for enc in ("hex", "rot13", "base64", "zlib", "bz2", "uu", "quopri", "punycode", "idna", "unicode_escape", "raw_unicode_escape", "utf-16", "utf-32", "ascii", "cp1252", "UTF8", "latin_1", "undefined", "mbcs", "oem", "x-nonsense", ""):
+                        yield (fmt, enc)
+            def echeck(c):
+                fmt, enc = c
+                text = ("d,format,%s\nd,encoding,%s\nf,id,,,%sInteger\nf,name%s\n" % (fmt, enc, "3," if fmt == "fixed" else ",", ",,,3" if fmt == "fixed" else ""))
+                path = wfile("e.%s" % ext[fmt], good[fmt] + "\u00e4".encode("utf-8"))
+                try: cid = interface.create_cid_from_string(text)
+                except errors.InterfaceError: return None
+                except Exception as e: return {"expected": "CID accepted or InterfaceError", "observed": "%s: %s" % (type(e).__name__, str(e)[:100])}
+                try:
+                    for _ in validio.rows(cid, path, on_error="continue"): pass
+                except errors.DataError: pass
+                except Exception as e: return {"expected": "rows or a DataError", "observed": "%s: %s" % (type(e).__name__, str(e)[:100])}
+                return None
+            res.append(sweep("C10/hostile/the Encoding cell of a CID against a data file read by path", ecases(), echeck, "bounded", "delimited and fixed CIDs x 22 encoding names (non-text codecs, unknown names, mismatching encodings)",
+                             describe=lambda c: {"format": c[0], "encoding": c[1]}, function="data.DataFormat.encoding + rowio readers", unit="C10.hostile.data", props=["C10"]))
         finally:
             shutil.rmtree(tmp, ignore_errors=True)
         return res
